@@ -87,7 +87,17 @@ def make_sampler(name, n, m, kind, log, source_attr="data_source", dataset=None,
         def __len__(self):
             return n
 
-    if kind == "noepoch" or name != "main":
+    if kind == "epochperm":
+        class S(Base):
+            epoch = 0
+
+            def set_epoch(self, e):  # user-managed (or announced by a scheduler that chooses to); the effect is visible below
+                self.epoch = e
+
+            def __iter__(self):
+                log.append(["iter", name, self.epoch])
+                yield from injection(name, n, m, "perm", self.epoch)
+    elif kind == "noepoch" or name != "main":
         class S(Base):
             def __iter__(self):
                 log.append(["iter", name])
@@ -150,6 +160,8 @@ def gen_world(rng, max_n=40, allow_multi_kind=True, max_cfg=4, loader=False):
         c = dict(n=n, m=n + rng.choice([0, 0, 1, 3]), ene=None, enu=None, ens=None,
                  bs=rng.choice([None, None, 1, 2, 3, 5]), kind=rng.choice(["seq", "fixedperm"]))
         r = rng.random()
+        if r > 0.88:
+            c["kind"] = "epochperm"
         if r < 0.12:
             c.update(kind="real_seq", m=n)
         elif r < 0.24 and n > 0:
@@ -222,7 +234,16 @@ def offsets(w):
     return offs
 
 
-def reference(w, start_epoch=0, max_events=200000):
+def side_epochs_of(history):
+    """the epoch each epoch-sensitive side sampler reported at each of its passes, in order: {name: [e, ...]}"""
+    out = {}
+    for e in history:
+        if e[0] == "iter" and len(e) > 2:
+            out.setdefault(e[1], []).append(e[2])
+    return out
+
+
+def reference(w, start_epoch=0, max_events=200000, side_epochs=None):
     """expected history of one (possibly resumed) run:
        ["set_epoch", e] / ["iter", name] / ["out", global_index, batch_ends_here]"""
     N, M, B = w["N"], w["M"], w["B"]
@@ -231,11 +252,23 @@ def reference(w, start_epoch=0, max_events=200000):
     offs = offsets(w)
     has_epoch = w["main_kind"] != "noepoch"
 
+    passes = {}
+
     def side(ci):
         c = w["configs"][ci]
         bs = c["bs"] or B
-        ev.append(["iter", f"c{ci}"])
-        stream = injection(f"c{ci}", c["n"], c["m"], c["kind"], dist=c.get("dist"))
+        name = f"c{ci}"
+        if c["kind"] == "epochperm":
+            # "all indices of its sampler": its own iteration under whatever epoch it held when the pass started
+            k = passes.get(name, 0)
+            passes[name] = k + 1
+            known = (side_epochs or {}).get(name, [])
+            e_side = known[k] if k < len(known) else 0
+            ev.append(["iter", name, e_side])
+            stream = injection(name, c["n"], c["m"], "perm", e_side)
+        else:
+            ev.append(["iter", name])
+            stream = injection(name, c["n"], c["m"], c["kind"], dist=c.get("dist"))
         for j, i in enumerate(stream):
             ev.append(["out", offs[ci] + i, (j + 1) % bs == 0 or j + 1 == c["n"]])
 
@@ -375,7 +408,7 @@ def world_candidates(plan):
     if w["dlbs"] is not None:
         yield core._set(plan, ["world", "dlbs"], None)
     for ci, c in enumerate(w["configs"]):
-        if c["kind"] not in ("seq", "dist_seq", "real_seq"):
+        if c["kind"] not in ("seq", "dist_seq", "real_seq", "epochperm"):
             yield core._set(plan, ["world", "configs", ci, "kind"], "seq")
         if c["m"] != c["n"] and c["kind"] != "dist_seq":
             yield core._set(plan, ["world", "configs", ci, "m"], c["n"])
